@@ -683,7 +683,7 @@ impl<'a, E: EndiannessRead, V: EncodingVersion> XTypesDeserializer<'a, E, V> {
             deserializer: &mut XTypesDeserializer<'a, E, V>,
             length: usize,
         ) -> XTypesResult<Vec<O>> {
-            let mut sequence = Vec::with_capacity(length);
+            let mut sequence = Vec::with_capacity(length.min(deserializer.reader.remaining()));
             for _ in 0..length {
                 sequence.push(deserializer.deserialize_primitive_type()?);
             }
@@ -756,14 +756,14 @@ impl<'a, E: EndiannessRead, V: EncodingVersion> XTypesDeserializer<'a, E, V> {
             ),
             TypeKind::CHAR16 => todo!(),
             TypeKind::STRING8 => {
-                let mut values = Vec::with_capacity(length);
+                let mut values = Vec::with_capacity(length.min(self.reader.remaining()));
                 for _ in 0..length {
                     values.push(self.deserialize_string_type()?);
                 }
                 dynamic_data.set_string_values(member.get_id(), values)
             }
             TypeKind::STRING16 => {
-                let mut values = Vec::with_capacity(length);
+                let mut values = Vec::with_capacity(length.min(self.reader.remaining()));
                 for _ in 0..length {
                     values.push(self.deserialize_wstring_type()?);
                 }
@@ -793,7 +793,7 @@ impl<'a, E: EndiannessRead, V: EncodingVersion> XTypesDeserializer<'a, E, V> {
             }
             TypeKind::ANNOTATION => todo!(),
             TypeKind::ENUM | TypeKind::STRUCTURE | TypeKind::UNION => {
-                let mut values = Vec::with_capacity(length);
+                let mut values = Vec::with_capacity(length.min(self.reader.remaining()));
                 for _ in 0..length {
                     values.push(self.deserialize_as_nested(element_type)?);
                 }
@@ -972,7 +972,7 @@ impl<'a, E: EndiannessRead, V: EncodingVersion> XTypesDeserializer<'a, E, V> {
             return Ok(String::new());
         }
         let num_units = length.saturating_sub(1) as usize;
-        let mut units = Vec::with_capacity(num_units);
+        let mut units = Vec::with_capacity(num_units.min(self.reader.remaining()));
         for _ in 0..num_units {
             let unit = self.deserialize_primitive_type::<u16>()?;
             units.push(unit);
@@ -1284,6 +1284,10 @@ struct Reader<'a> {
 }
 
 impl<'a> Reader<'a> {
+    fn remaining(&self) -> usize {
+        self.buffer.len().saturating_sub(self.pos)
+    }
+
     fn read_byte(&mut self) -> XTypesResult<u8> {
         if self.pos + 1 > self.buffer.len() {
             return Err(XTypesError::NotEnoughData);
